@@ -409,7 +409,7 @@ func keyClass(age int) string {
 
 // Run is the C15 monitor (library / service layer), followed by the wire layer if plugged in.
 func Run(r *ev.Run) {
-	r.Rule = "cases = (keystore format v1|v2 × poison-key history of 0-3 rotations of the pair and of the symmetric key × record kind AcraStruct|AcraBlock made under the current or an older key × placement (alone, offsets 0..64 in random bytes, text, partial tags, hash look-alike prefix, next to client envelopes, two records, after look-alike container headers) × entry point (column pipeline under 12 column-setting/masking variants, 8 translator decrypt call forms) × reader) for positives, and (random bytes, look-alike headers, client envelopes raw/container/searchable framed or not, truncated and bit-flipped poison records, poison records of another keystore) × entry point for negatives; seeded sample, fixed counts per (keystore, epoch). Data-length sweep (enumerated, not sampled; counters lensweep:*): requested data length {default,1,100,300,311,1000,5000,20000} × kind × (alone | embedded among random bytes) × 18 entry points (10 column variants, 8 translator call forms) × records made under the current and under rotated poison keys, per keystore and epoch, and as negatives client envelopes of both kinds with payloads of the same lengths (quick: length 20000 embedded at a rotating quarter of the entry points per epoch). A positive case is non-trivial when the recording callback ran inside the operation window; distinct = (keystore, entry point, kind, key age, placement[, data length in the sweep]) for positives and (keystore, entry-point group, input class) for silent negatives"
+	r.Rule = "cases = (keystore format v1|v2 × poison-key history of 0-3 rotations of the pair and of the symmetric key × record kind AcraStruct|AcraBlock made under the current or an older key × placement (alone, offsets 0..64 in random bytes, text, partial tags, hash look-alike prefix, next to client envelopes, two records, after look-alike container headers) × entry point (column pipeline under 12 column-setting/masking variants, 8 translator decrypt call forms) × reader) for positives, and (random bytes, look-alike headers, client envelopes raw/container/searchable framed or not, truncated and bit-flipped poison records, poison records of another keystore) × entry point for negatives; seeded sample, fixed counts per (keystore, epoch). Data-length sweep (enumerated, not sampled; counters lensweep:*): requested data length {default,1,100,300,311,1000,5000,20000} × kind × (alone | embedded among random bytes) × 18 entry points (10 column variants, 8 translator call forms) × records made under the current and under rotated poison keys, per keystore and epoch, and as negatives client envelopes of both kinds with payloads of the same lengths (quick: length 20000 embedded at a rotating quarter of the entry points per epoch). Script-callback phase (counters script:*): per keystore one callback storage configured like the servers do (EmptyCallback, poison.ExecuteScriptCallback with a shell script that appends a line to a file, then the recorders) handles a fixed sequence of 12 (thorough 36) poison values alternating with clean values, entry point / kind / placement / reader / key age rotating: for every poison value the script callback must be called and return nil and the callbacks after it must run, for clean values none; the line count of the script's file is compared with the number of started scripts. A positive case is non-trivial when the recording callback ran inside the operation window; distinct = (keystore, entry point, kind, key age, placement[, data length in the sweep]) for positives and (keystore, entry-point group, input class) for silent negatives"
 	r.Assumptions = []string{
 		"crypto library replaced by the pure-Go gothemis stand-in (Secure Cell Seal / Secure Message / EC key contract)",
 		"library/service layer: column pipeline assembled like proxyFactory.New (hmac, old-container wrapper, poison recognizer BEFORE the decrypt/masking handler) and TranslatorService; delivery = return of OnColumn / of the translator operation; wire transport is judged by the proxy layer",
@@ -421,6 +421,11 @@ func Run(r *ev.Run) {
 	for _, st := range stores {
 		st.prepareClients(gen.New(r.Seed, "c15-clients-"+st.name))
 		st.prepareSweepClients(gen.New(r.Seed, "c15-lensweep-clients-"+st.name))
+	}
+	// script-callback phase (script.go): the scripts are written before anything else runs
+	var scriptEnvs []*scriptEnv
+	for _, st := range stores {
+		scriptEnvs = append(scriptEnvs, newScriptEnv(st))
 	}
 	const workers = 8
 	wenvs := make([][]*wenv, workers)
@@ -555,7 +560,10 @@ func Run(r *ev.Run) {
 			reportOrphans(r, we, "end of run")
 		}
 	}
+	// several poison values per process with the stock script callback configured (after the last rotation: pool holds current and rotated keys)
+	scriptPhase(r, stores, scriptEnvs, cols[:10], trs)
 	finishGuards(r)
+	scriptGuards(r)
 	if ProxyLayer != nil {
 		ProxyLayer(r)
 	}
